@@ -28,7 +28,13 @@ import pandas as pd
 
 TZS = ["America/Chicago", "US/Pacific", "Europe/London", "Australia/Sydney", "Asia/Kolkata", "UTC"]
 STD_OFFSET_H = {"America/Chicago": -6, "US/Pacific": -8, "Europe/London": 0, "Australia/Sydney": 10,
-                "Asia/Kolkata": 5, "UTC": 0}
+                "Asia/Kolkata": 5, "UTC": 0,
+                # look-alikes: different zones that share the UTC offset of a catalogue zone (always or in winter)
+                "America/Regina": -6, "America/Vancouver": -8, "Europe/Lisbon": 0, "Australia/Melbourne": 10,
+                "Asia/Colombo": 5, "Atlantic/Reykjavik": 0, "Etc/GMT+6": -6}
+LOOKALIKE = {"America/Chicago": ["America/Regina", "Etc/GMT+6"], "US/Pacific": ["America/Vancouver"],
+             "Europe/London": ["Europe/Lisbon", "UTC", "Atlantic/Reykjavik"], "Australia/Sydney": ["Australia/Melbourne"],
+             "Asia/Kolkata": ["Asia/Colombo"], "UTC": ["Atlantic/Reykjavik", "Europe/London"]}
 SPANS = {"day": 1, "week": 7, "month": 30, "partial": 150, "full": 365}
 START_DAY = "2015-12-03"
 BLACKOUT_DAYS = 10
@@ -79,6 +85,7 @@ def meter_params(mid: int) -> dict:
         "tshift": float(g.uniform(-6, 6)),
         "electric": not (kind in ("heat", "flat") and (mid // 2) % 2 == 1),
         "pv": float(g.uniform(0.0008, 0.002)),
+        "zeros": (mid % 3 == 0),   # a few zero readings (electric: the data classes turn them into missing)
     }
     return p
 
@@ -245,6 +252,10 @@ def build(recipe: dict):
             mask = (hidx.month == 4)
             temp_h = temp_h.copy()
             temp_h[mask] = np.nan
+        if p["zeros"] and defect is None and len(y) > 20:
+            y = y.copy()
+            y[np.random.default_rng(_seed("zeros", recipe["mid"], first, n)).choice(
+                np.arange(3, len(y) - 3), max(1, len(y) // 120), replace=False)] = 0.0
         if role == "reporting":
             y = _alter_observed(y, obs, ga)
             if recipe.get("tgap"):
@@ -276,6 +287,10 @@ def build(recipe: dict):
         temp_h = temp_h.copy()
         sel = np.flatnonzero(hidx.month == 4)
         temp_h[g.choice(sel, int(0.3 * len(sel)), replace=False)] = np.nan
+    if p["zeros"] and defect is None and ghi is None:
+        y = y.copy()
+        y[np.random.default_rng(_seed("zeros", recipe["mid"], first, n)).choice(
+            np.arange(30, len(y) - 30), max(1, len(y) // 500), replace=False)] = 0.0
     if role == "reporting":
         y = _alter_observed(y, obs, ga)
         if recipe.get("tgap"):
@@ -301,6 +316,8 @@ def _daily_ctor(recipe, days, y, temp_series, electric, obs):
     df = pd.DataFrame({"observed": y, "temperature": tday}, index=days)
     if obs == "absent":
         df = df.drop(columns=["observed"])
+    if recipe["entry"] == "frame_col":
+        df = df.rename_axis("datetime").reset_index()
     return dict(cls=cls, how="init", args=[df], kwargs={"is_electricity_data": electric}, inputs=[df])
 
 
@@ -355,6 +372,8 @@ def _hourly_ctor(recipe, hidx, y, temp_h, ghi, electric, obs):
             df["ghi"] = ghi
         if obs == "absent":
             df = df.drop(columns=["observed"])
+        if recipe["entry"] == "frame_col":
+            df = df.rename_axis("datetime").reset_index()
         return dict(cls=cls, how="init", args=[df], kwargs={"is_electricity_data": electric}, inputs=[df])
     cls = "HourlyCaltrackBaselineData" if role == "baseline" else "HourlyCaltrackReportingData"
     if recipe["entry"] == "series":
